@@ -330,6 +330,24 @@ PROPS['C05']['level_text'] = 'Mixed. ' + _FEAS_TEXT + 'BOUNDED (bc prune / fault
 PROPS['C03']['technique'] = 'Verus contracts on the extracted pruning oracle (is_edge_feasible) and LP phase (phase_two): pruning decisions come only from Infeasible verdicts + bounded replay (bc prune) of function preservation through infeasible_elimination and compose::<true,_>'
 PROPS['C03']['level_text'] = 'Mixed. ' + _FEAS_TEXT + 'NOT proved: that removing what these verdicts mark preserves the function (needs the soundness of the LP answer and the simulation argument for the traversal that mutates the tree: bounded). ' + PROPS['C03']['level_text']
 
+# forward_if_redundant (the splice step of infeasible_elimination) is under contract since unit pwl_forward
+_FWD_ASSUME = [
+    'unit pwl_forward: rule I17: `self.tree.children(p).filter(|child| child.target_value.state.is_feasible()).collect_vec()` and the is_infeasible / `.map(|x| x.edge())` form are the verified helper edges_in_state (edges to the existing children in the wanted cached state, ascending labels); `for edg in &infeasible_children` is the index loop; `feasible_children.pop().unwrap().edge()` is the popped edge; the debug_assert is dropped (rule D2); remove_child / merge_child_with_parent are used through the contracts proved in unit tree_graph; arena of at most i32::MAX nodes (deletion counter of remove_all_descendants)',
+]
+_FWD_TEXT = ('PROVED (Verus, unit pwl_forward, every tree, every K >= 2, every labelling with cached states): forward_if_redundant acts only on a decision with exactly one child cached feasible and the other K-1 children cached infeasible - in every other case it returns None and leaves the arena untouched; '
+             'when it acts it removes exactly the infeasible children with everything below them (nothing else disappears, no other node changes), keeps the tree well-formed, and splices the decision out in favour of its feasible child (merge_post of unit tree_graph: the child takes the decision\'s slot under the grandparent) - '
+             'unless the decision is the root, which stays with the feasible child as its only child; the returned node carries the decision\'s value. ')
+PROPS['C06'].update({
+    'level': 'other',
+    'units': ['pwl_forward'],
+    'technique': 'Verus contract on the extracted forward_if_redundant (the single-branch replacement step: acts exactly on one-feasible / K-1-infeasible decisions, removes exactly the infeasible subtrees, splices the decision out) + bounded replay (bc prune[effective,idempotent], bc distill[effective,idempotent]) with an exact Fourier-Motzkin emptiness oracle for effectiveness and idempotence of the whole elimination',
+    'level_text': 'Mixed. ' + _FWD_TEXT + 'BOUNDED only (bc prune / distill, exact emptiness oracle): that after the whole infeasible_elimination no node below the root has an empty region, no decision below the root has a single branch, and a second run changes nothing (these depend on the LP answers and on the traversal that mutates the tree). ' + PROPS['C06']['level_text'],
+    'assumptions': ASSUME_COMMON + ASSUME_SLAB + ASSUME_ND + ASSUME_PWL + PROPS['C06']['assumptions'] + _FWD_ASSUME,
+})
+PROPS['C03']['units'] = ['pwl_feasible', 'pwl_forward']
+PROPS['C03']['assumptions'] = PROPS['C03']['assumptions'] + _FWD_ASSUME
+PROPS['C03']['level_text'] = PROPS['C03']['level_text'].replace('NOT proved:', _FWD_TEXT.replace('PROVED (Verus, unit pwl_forward', 'Also PROVED (unit pwl_forward') + 'NOT proved:')
+
 PROPS['C15'].update({
     'level': 'other',
     'units': ['poly_lp'],
